@@ -156,6 +156,10 @@ of_status_t	of_2d_parity_release_codec_instance (of_2d_parity_cb_t*	ofcb)
 		of_print_xor_symbols_statistics(ofcb->stats_xor);
 		of_free(ofcb->stats_xor);
 	}
+	if (ofcb->stats_symbols != NULL)
+	{
+		of_free(ofcb->stats_symbols);
+	}
 #endif
 	OF_EXIT_FUNCTION
 	return OF_STATUS_OK;
